@@ -1,9 +1,12 @@
 (* model: singleton *)
 (* model side of harness bin `singleton` (see harness/src/singleton.rs for the formats)
 
-   R <ords> <prog> <sched>   run the SC instantiation of the view machine on one schedule
-                             (<sched> = string of thread digits) and print the entry
-                             <sched>|<ops>|<results>|fin=<0|1>,stuck=<n>,raced=<0|1>
+   E <ords> <prog>           every SC interleaving of the program (depth-first, lowest thread first)
+                             through the SC instantiation of the view machine:
+                             n=<entries> <entry>;<entry>;..      entry = <sched>|<ops>|<results>
+   R <ords> <prog> <sched>   one schedule (<sched> = string of thread digits): n=1 <entry>, followed by
+                             |!fin=<0|1>,stuck=<n>,raced=<0|1> when the schedule does not run every
+                             thread to its end, names a thread that cannot run, or races
    X <ords> <prog>           explore ALL executions (stale reads included) for a racing access:
                              racy <t>:<r>,<t>:<r>,.. <executions visited>   |   none <executions>
    <ords> = 4 letters: CAS success, CAS failure, store, load; r l a q s =
@@ -36,7 +39,7 @@ let parse_sched s =
 
 let show_op = function
   | OpCas (so, fo, _, rd, ok) ->
-    Printf.sprintf "C%c%c01%c%d" (char_of_ord so) (char_of_ord fo) (if ok then 'k' else 'e') (int_of_nat rd)
+    Printf.sprintf "C%c%c:0:1:%c%d" (char_of_ord so) (char_of_ord fo) (if ok then 'k' else 'e') (int_of_nat rd)
   | OpLoad (o, _, rd) -> Printf.sprintf "L%c%d" (char_of_ord o) (int_of_nat rd)
   | OpStore (o, _, v) -> Printf.sprintf "S%c%d" (char_of_ord o) (int_of_nat v)
   | OpCell (w, _) -> if w then "W" else "R"
@@ -47,29 +50,55 @@ let show_ret = function
   | RGet (Some v) -> "v" ^ string_of_int (int_of_n v)
   | RIsSet b -> if b then "t" else "f"
 
+(* the entry <sched>|<ops>|<results> of a state's trace *)
+let entry nthr (s : sg_state) =
+  let calls_done = Array.make nthr 0 in
+  let results = Array.make nthr [] in
+  let ops = List.map (fun r ->
+    let t = int_of_nat r.r_tid in
+    let tok = Printf.sprintf "%d.%d.%s" t calls_done.(t) (show_op r.r_op) in
+    (match r.r_ret with
+     | Some x -> results.(t) <- show_ret x :: results.(t); calls_done.(t) <- calls_done.(t) + 1
+     | None -> ());
+    tok) s.g_trace in
+  let eff = String.concat "" (List.map (fun r -> string_of_int (int_of_nat r.r_tid)) s.g_trace) in
+  Printf.sprintf "%s|%s|%s"
+    (if eff = "" then "-" else eff)
+    (String.concat "," ops)
+    (String.concat "/" (Array.to_list (Array.map (fun l -> String.concat "." (List.rev l)) results)))
+
+let runnable (th : sg_thr) = match th.th_pc, th.th_calls with PIdle, [] -> false | _ -> true
+
 let run_case line =
   match tokens line with
+  | ["E"; os; prog] ->
+    let os = parse_ords os and progs = parse_prog prog in
+    let nthr = List.length progs in
+    let buf = Buffer.create 65536 in
+    let count = ref 0 in
+    let rec go (s : sg_state) =
+      let any = ref false in
+      List.iteri (fun t th ->
+        if runnable th then begin
+          any := true;
+          go (sg_step os s (nat_of_int t, O))
+        end) s.g_thrs;
+      if not !any then begin
+        if !count > 0 then Buffer.add_char buf ';';
+        incr count;
+        Buffer.add_string buf (entry nthr s)
+      end in
+    go (sg_init progs);
+    Printf.sprintf "n=%d %s" !count (Buffer.contents buf)
   | ["R"; os; prog; sched] ->
     let os = parse_ords os and progs = parse_prog prog and tids = parse_sched sched in
     let nthr = List.length progs in
-    (* run step by step to count the scheduled steps that did nothing *)
     let s = sg_run_sc os progs tids in
-    let calls_done = Array.make nthr 0 in
-    let results = Array.make nthr [] in
-    let ops = List.map (fun r ->
-      let t = int_of_nat r.r_tid in
-      let tok = Printf.sprintf "%d.%d.%s" t calls_done.(t) (show_op r.r_op) in
-      (match r.r_ret with
-       | Some x -> results.(t) <- show_ret x :: results.(t); calls_done.(t) <- calls_done.(t) + 1
-       | None -> ());
-      tok) s.g_trace in
     let stuck = List.length tids - List.length s.g_trace in
-    let eff = String.concat "" (List.map (fun r -> string_of_int (int_of_nat r.r_tid)) s.g_trace) in
-    Printf.sprintf "%s|%s|%s|fin=%d,stuck=%d,raced=%d"
-      (if eff = "" then "-" else eff)
-      (String.concat "," ops)
-      (String.concat "/" (Array.to_list (Array.map (fun l -> String.concat "." (List.rev l)) results)))
-      (if sg_finished s then 1 else 0) stuck (if s.g_raced then 1 else 0)
+    let fin = sg_finished s in
+    Printf.sprintf "n=1 %s%s" (entry nthr s)
+      (if fin && stuck = 0 && not s.g_raced then ""
+       else Printf.sprintf "|!fin=%d,stuck=%d,raced=%d" (if fin then 1 else 0) stuck (if s.g_raced then 1 else 0))
   | ["X"; os; prog] ->
     let os = parse_ords os and progs = parse_prog prog in
     (match sg_search os progs with
